@@ -4,6 +4,7 @@
    theorems quantify over every interleaving of SetAvail / IncConnNum / DecConnNum with the scan.
    `returned r` = the call returned a backend (ROk, non-empty admissible set) or an error (RErr);
    RPanic / RFuel are the two ways a Go call fails to do so (run-time panic / never leaving the loop).
+   The model is of the code after /repo commit faad7ac (fix of simpleBalance / leastConnsSimpleBalance).
    Data-race freedom is NOT covered: the model assumes the mutex discipline (see props/C05.json). *)
 From Coq Require Import List ZArith Bool.
 From Bfe Require Import lib.Val model.SimpleRR run.RunC05 proofs.SimpleRRProofs.
@@ -26,50 +27,24 @@ Theorem C05_wlc_smooth_total : forall s : dyn, returned (snd (wlc_smooth s)).
 Proof. exact wlc_smooth_total. Qed.
 Print Assumptions C05_wlc_smooth_total.
 
-(* WlcSimple is NOT total under concurrent change: two equally loaded backends that both go down between the
-   two passes of leastConnsBalance leave an empty candidate list and randomBalance computes rand.Int() % 0. *)
-Theorem C05_wlc_simple_refuted : exists s : dyn, snd (wlc_simple s) = RPanic.
-Proof. exists wlc_witness. exact wlc_simple_refuted. Qed.
-Print Assumptions C05_wlc_simple_refuted.
-(* ... and it is total whenever the environment does not move during the call. *)
-Theorem C05_wlc_simple_partial : forall s : dyn, snd s = [] -> returned (snd (wlc_simple s)).
-Proof. exact wlc_simple_static_total. Qed.
-Print Assumptions C05_wlc_simple_partial.
+(* WlcSimple: same (the candidate list can become empty under mid-call flips - see C05_ex_wlc - and is then an error;
+   before /repo commit faad7ac it was rand.Int() % 0). *)
+Theorem C05_wlc_simple_total : forall s : dyn, returned (snd (wlc_simple s)).
+Proof. exact wlc_simple_total. Qed.
+Print Assumptions C05_wlc_simple_total.
 
-(* WrrSimple is refuted three ways.  (a) an empty list (Update with an empty conf) panics on backends[0]: *)
-Theorem C05_simple_refuted_empty : forall fuel sc next, snd (simple (S fuel) ([], sc) next) = RPanic.
-Proof. exact simple_empty_panics. Qed.
-Print Assumptions C05_simple_refuted_empty.
-(* (b) with NO concurrent change at all: backend 1 available with weight -1 (accepted by the cluster-table
-   loader, which only wants one positive weight), backend 2 (weight 1) down: the call never returns, for every
-   amount of fuel, i.e. it spins forever while holding the BalanceRR lock. *)
-Theorem C05_simple_refuted :
-  exists (bs : list be), forall fuel, snd (simple fuel (bs, []) 0) = RFuel.
-Proof. exists (fst neg_witness). exact simple_livelock_static. Qed.
-Print Assumptions C05_simple_refuted.
-(* (c) with positive weights only: one SetAvail(false) arriving between two probes of the scan. *)
-Theorem C05_simple_refuted_one_flip :
-  exists (bs : list be) id, (forall b, In b bs -> bw b > 0) /\
-    (forall fuel, snd (simple fuel (bs, [[(id, 0, 0)]]) 0) = RFuel) /\
-    snd (simple 5 (bs, []) 0) = ROk [1].
-Proof.
-  exists (fst flip_witness), 1. split.
-  - intros b [<-|[<-|[]]]; reflexivity.
-  - split; [exact simple_livelock_one_flip|exact simple_no_flip_returns].
-Qed.
-Print Assumptions C05_simple_refuted_one_flip.
-
-(* WrrSimple, guarded: on every non-empty list whose weights are all >= 0 (any credits, any availability, every
-   brr.next in range) and without concurrent change the call returns a backend or "all backend is down" within
-   2*len+1 probes.  The guard excludes exactly the three refuted classes: empty list, a negative weight, a mid-call flip. *)
-Theorem C05_simple_partial : forall bs next,
-  (forall b, In b bs -> 0 <= bw b) -> 0 <= next < Z.of_nat (length bs) ->
-  is_returned (snd (simple (2 * length bs + 1) (bs, []) next)) = true.
-Proof. exact simple_static_total. Qed.
-Print Assumptions C05_simple_partial.
+(* WrrSimple (after the repair of simpleBalance): for EVERY backend list (also empty, also negative weights), every
+   brr.next in range and EVERY environment script the call returns a backend or an error within
+   len(script) + 2*len probes - it can neither panic nor spin while holding the lock. *)
+Theorem C05_simple_total : forall bs sc next,
+  (bs = [] \/ 0 <= next < Z.of_nat (length bs)) ->
+  is_returned (snd (simple (length sc + 2 * length bs) (bs, sc) next)) = true.
+Proof. exact simple_total. Qed.
+Print Assumptions C05_simple_total.
 
 (* Wire level: for every input (initial conf + history of Balance / SetAvail / conn change / Update, with scripts)
-   that is outside the three finding classes, every Balance of the modelled history returns a backend or an error. *)
+   whose model run contains no non-returning call (kf_C05 = 0), every Balance of the modelled history returns a backend
+   or an error.  (kf_C05 <> 0 would need brr.next out of range, which no operation produces; not proved at wire level.) *)
 Theorem C05_prop_of_model : forall i, kf_C05 i = 0 -> prop_C05 i (run_C05 i) = true.
 Proof. exact model_satisfies_prop. Qed.
 Print Assumptions C05_prop_of_model.
@@ -80,10 +55,16 @@ Example C05_ex_smooth :
   snd (smooth [0%nat; 1%nat] ([mkBe 1 100 100 true 0; mkBe 2 200 200 true 0], [[(2, 0, 0)]])) = ROk [1]
   /\ snd (smooth [0%nat; 1%nat] ([mkBe 1 100 100 true 0; mkBe 2 200 200 true 0], [])) = ROk [2].
 Proof. exact ex_smooth_flip. Qed.
-(* C05_simple_partial applies to the one-flip witness list without its flip: it returns backend 1 *)
-Example C05_ex_partial :
-  (forall b, In b (fst flip_witness) -> 0 <= bw b) /\ snd (simple 5 (fst flip_witness, []) 0) = ROk [1].
-Proof. exact ex_partial. Qed.
+(* the inputs that made the old code spin or panic now return errors / a backend *)
+Example C05_ex_former_witnesses :
+  snd (simple (simple_fuel neg_witness) neg_witness 0) = RErr 1 /\
+  snd (simple (simple_fuel flip_witness) flip_witness 0) = RErr 1 /\
+  snd (simple 5 (fst flip_witness, []) 0) = ROk [1] /\
+  snd (simple 0 ([], []) 0) = RErr 1.
+Proof. exact former_witnesses. Qed.
+(* two tied backends both go down between the two passes of leastConnsBalance: error instead of rand % 0 *)
+Example C05_ex_wlc : snd (wlc_simple wlc_witness) = RErr 1 /\ snd (wlc_simple (fst wlc_witness, [])) = ROk [1; 2].
+Proof. exact wlc_witness_err. Qed.
 (* a well-formed history outside the finding classes (SetAvail, WrrSimple with a mid-scan flip, WrrSmooth) *)
 Example C05_ex_wire :
   let i := VL [VL [VL [VZ 1; VZ 1]; VL [VZ 2; VZ 2]];
